@@ -50,8 +50,8 @@ def emitted_files():
     for c in cases:
         o = res.get(c["id"], "")
         p = core.parse_sx(o)
-        if isinstance(p, list) and len(p) >= 7 and isinstance(p[2], list) and p[2][0] == "ok" and isinstance(p[6], str) and len(p[6]) > 2:
-            out.append((c["impl"]["src"], bytes.fromhex(p[6].strip('"'))))
+        if isinstance(p, list) and len(p) >= 9 and isinstance(p[2], list) and p[2][0] == "ok" and isinstance(p[8], str) and len(p[8]) > 2:
+            out.append((c["impl"]["src"], bytes.fromhex(p[8].strip('"'))))
     return out
 
 
